@@ -1,2 +1,4 @@
 import ChaiVerif.Props.C05
 import ChaiVerif.Drv.Arith
+import ChaiVerif.Props.C16
+import ChaiVerif.Drv.Lit
